@@ -122,7 +122,7 @@ pub fn judge(sc: &SchedScenario, mut x: Execution, want: &[&str]) -> SchedOutcom
 
     // ---- C07: progress ----
     if let Some(p) = &x.panic {
-        out.push(viol(sc, &x, "C07", format!("panic:{}:{}", sig, err_category(p)), format!("a task panicked: {}", p)));
+        out.push(viol(sc, &x, if has("C17") { "C17" } else { "C07" }, format!("panic:{}:{}", sig, err_category(p)), format!("a task panicked: {}", p)));
         "panic".hash(&mut h);
         return SchedOutcome { fingerprint: h.finish(), violations: out };
     }
@@ -144,11 +144,11 @@ pub fn judge(sc: &SchedScenario, mut x: Execution, want: &[&str]) -> SchedOutcom
             k.sort();
             k
         };
-        if has("C07") {
+        if has("C07") || has("C17") {
             out.push(viol(
                 sc,
                 &x,
-                "C07",
+                if has("C17") { "C17" } else { "C07" },
                 format!("{}:blocked={}", if x.deadlock { "deadlock" } else { "livelock" }, kinds.join("+")),
                 format!(
                     "{}: no enabled action but unfinished tasks [{}]; backend log tail: {:?}",
